@@ -1,14 +1,22 @@
 """C17 - randomised routines are deterministic in their key, never touch numpy's global generator;
 Hutchinson is unbiased and stops no later than max_iters.
 
-(1) Rng.tla is the specification (g: identity of the global NumPy stream, out[routine, key]: first output);
-    MC_Rng.tla model-checks ALL interleavings of {user draw, user seed, call(routine, key)} up to a depth against
-    it, on a mechanism model whose per-routine discipline ("keyed" / "fixed" / "global") is extracted from the
-    CURRENT source, and prints the judged interleavings.
-(2) spec -> code: every printed interleaving is executed against real cola (prefixes shared: the recording is
-    a tree); each event carries SHA-256 identities of np.random.get_state() before / after and of the output.
-(3) code -> spec: Trace_Rng.tla validates the recorded tree (a call leaves g unchanged; equal (routine, key)
-    => equal output; a user draw does change g); negative controls corrupt one digest and must be rejected.
+(1) Rng.tla is the specification (g: identity of the global NumPy stream, out[routine, operator, key]: first
+    output); MC_Rng.tla model-checks ALL interleavings of a mode's alphabet up to a depth against it, on a mechanism
+    model whose per-routine discipline ("keyed" / "fixed" / "global") and randn's state discipline are extracted from
+    the CURRENT source, and prints the judged interleavings.  Modes: "base" = {user draw, user seed, call(routine,
+    key)} on one operator; "variant:<routine>" = calls of one routine on the float32 / float64 / complex64 /
+    complex128 versions of ONE matrix x keys, interleaved with unrelated keyed draws (raw randn: same key with another
+    shape / dtype, another key with the same shape) and user draws.  "The output is a function of (routine, operator,
+    key)" is the action property KeyedOutputsAreAFunction over the explicit history.
+(2) spec -> code: every printed interleaving is executed against real cola; each event carries SHA-256
+    identities of np.random.get_state() before / after and of the output.  Base mode: prefixes shared (the recording
+    is a tree per operator).  Variant modes: the behaviours are executed linearly, several in a row in a freshly
+    forked process (one long history per process: whatever a call leaves behind is seen by all later calls).
+(3) code -> spec: Trace_Rng.tla validates the recorded forest (a call leaves g unchanged; equal (routine,
+    operator, key) => equal output along the path AND across all recorded histories; a user draw does change g;
+    different operators / keys are never compared); negative controls corrupt one digest and must be rejected,
+    a hand-made history with different digests for different operators / keys must be accepted.
 (4) HutchControl.tla decides, on exact integer matrices and by complete enumeration of the Rademacher sign
     vectors, that the estimator formula AS CODED (roll / zero / slice) is unbiased for every offset k, gives its
     exact variance and prints expected diagonals + variance numerators; the harness tests cola's estimates
@@ -36,18 +44,37 @@ PROP = "C17"
 ROUTINES = ["hutch_diag", "hutch_trace", "slq", "lanczos_default_start", "arnoldi_default_start",
             "power_iteration", "nystrom", "randomized_svd", "lobpcg"]
 KEYS = [1, 2]
-REAL_KEYS = {1: 1234567, 2: 42}          # the integers actually passed as `key`
+REAL_KEYS = {1: 1234567, 2: 42, 3: 99}   # the integers actually passed as `key` (3: unrelated raw draws only)
+KEYS_ALL = [1, 2, 3]
+BASE_OPS = ["psd6_f64_generic", "psd7_f32_gram"]
+VAR_OPS = ["f32", "f64", "c64", "c128"]          # operator variants: ONE 6x6 matrix in four dtypes (equal shapes)
+VAR_DTYPES = {"f32": "float32", "f64": "float64", "c64": "complex64", "c128": "complex128"}
+# unrelated keyed draws straight from the backend: (shape, dtype); the shapes are those the routines draw on a 6x6
+# operator (start vectors (6,), Nystrom sketch (6, 2)) so that only key / dtype tell them apart
+RAW_OPS = {"raw6f64": ((6, ), "float64"), "raw62f32": ((6, 2), "float32")}
+RAW_ACTS = [("raw6f64", 1), ("raw62f32", 1), ("raw6f64", 3)]
+RAW = "raw_randn"
+ROUTINES_ALL = ROUTINES + [RAW]
+OPS_ALL = ["base"] + VAR_OPS + list(RAW_OPS)
+N_BASE_ACTS = 1 + 1 + len(ROUTINES) * len(KEYS)
 SEEDS = ["s7"]
 REAL_SEEDS = {"s7": 7}
 BOOT_SEED = 20260929
 
 ASSUMPTIONS = [
     "identities of np.random.get_state() and of outputs are SHA-256 digests (interned to integers for TLC); "
-    "'operator' is one fixed operator per recorded tree (two operators: generic float64 PSD 6x6, float32 7x7 "
-    "Gram product), keys are the two integers 1234567 and 42",
-    "interleavings share prefixes when replayed: the harness restores np.random.set_state() to the recorded state "
-    "of the parent node before executing a sibling (a user-level action); cola is assumed to keep no hidden state "
-    "besides numpy's global generator",
+    "base mode: 'operator' is one fixed operator per recorded tree (two operators: generic float64 PSD 6x6, float32 "
+    "7x7 Gram product); variant modes: the float32 / float64 / complex64 / complex128 versions of one Hermitian "
+    "positive definite 6x6 integer matrix; keys are the integers 1234567 and 42 (99 for unrelated raw draws only)",
+    "base-mode interleavings share prefixes when replayed: the harness restores np.random.set_state() to the "
+    "recorded state of the parent node before executing a sibling (a user-level action), so within a tree cola is "
+    "assumed to keep no hidden state besides numpy's global generator; that assumption is what the variant modes "
+    "test: their behaviours are executed linearly, chained one after the other in a freshly forked child of a "
+    "process that has imported cola and built the operators but never called a randomised routine, and every "
+    "output is additionally compared across ALL recorded histories (Trace_Rng: okf)",
+    "variant modes fix one routine per behaviour (the full product alphabet is too large); behaviours of different "
+    "routines meet in the chains.  Quick: every behaviour of length 3 is model-checked, 1 in 8 replayed; thorough: "
+    "length 4, 1 in 8",
     "routines without a key parameter (randomized_svd, lobpcg; AdaNysPrecond / select_rank_adaptively in the "
     "direct checks) are called as they can be called: the model key is ignored; this satisfies 'same key => same "
     "output' only if the routine is deterministic outright",
@@ -130,7 +157,22 @@ def get_ops():
     B = rng.randint(-2, 3, size=(9, 7)).astype(np.float32)
     Bo = cola.ops.Dense(B)
     _OPS["psd7_f32_gram"] = cola.PSD(cola.ops.Product(cola.ops.Transpose(Bo), Bo))
+    # operator variants: the same matrix in four dtypes (Hermitian positive definite; the imaginary part is dropped
+    # by the real variants, which keeps them symmetric positive definite)
+    K = np.triu(rng.randint(-1, 2, size=(6, 6)), 1).astype(np.float64)
+    H = S + 1j * (K - K.T)
+    for v in VAR_OPS:
+        dt = np.dtype(VAR_DTYPES[v])
+        Mv = H.astype(dt) if dt.kind == "c" else S.astype(dt)
+        _OPS["var6_" + v] = cola.PSD(cola.ops.Dense(Mv))
     return _OPS
+
+
+def op_name(a, base=None):
+    """Name (key of get_ops() / label in violations) of the operator of call action `a`."""
+    if a["op"] == "base":
+        return base
+    return "var6_" + a["op"] if a["op"] in VAR_OPS else a["op"]
 
 
 def routine_fns():
@@ -157,9 +199,27 @@ def routine_fns():
 
 
 def actions():
+    """The whole alphabet: base mode first (indices 1..N_BASE_ACTS), then the variant calls, then the raw draws."""
     acts = [{"t": "draw"}] + [{"t": "seed", "s": s} for s in SEEDS]
-    acts += [{"t": "call", "r": r, "k": k} for r in ROUTINES for k in KEYS]
+    acts += [{"t": "call", "r": r, "op": "base", "k": k} for r in ROUTINES for k in KEYS]
+    acts += [{"t": "call", "r": r, "op": v, "k": k} for r in ROUTINES for v in VAR_OPS for k in KEYS]
+    acts += [{"t": "call", "r": RAW, "op": o, "k": k} for o, k in RAW_ACTS]
     return acts
+
+
+def modes(tier, depth):
+    """RM_Modes: base + one variant mode per routine.  Seeds only move the residue of the leaf selection."""
+    acts = actions()
+    sd = common.seed()
+    base_mod = 5 if tier == "quick" else 8
+    var_len, var_mod = (3, 8) if tier == "quick" else (4, 8)     # 8 consecutive call indices keep every prefix covered
+    out = [{"name": "base", "acts": list(range(1, N_BASE_ACTS + 1)), "maxlen": depth, "mod": base_mod, "res": sd % base_mod}]
+    raw = [i + 1 for i, a in enumerate(acts) if a.get("r") == RAW]
+    for r in ROUTINES:
+        mine = [i + 1 for i, a in enumerate(acts) if a.get("r") == r and a.get("op") in VAR_OPS]
+        out.append({"name": "variant:" + r, "acts": [1] + mine + raw, "maxlen": var_len, "mod": var_mod,
+                    "res": (sd + len(out)) % var_mod})
+    return out
 
 
 def act_str(a):
@@ -167,22 +227,33 @@ def act_str(a):
         return "np.random.normal()"
     if a["t"] == "seed":
         return f"np.random.seed({REAL_SEEDS[a['s']]})"
-    return f"{a['r']}(A, key={REAL_KEYS[a['k']]})"
+    if a["r"] == RAW:
+        shape, dt = RAW_OPS[a["op"]]
+        return f"np_fns.randn(*{shape}, dtype={dt}, key={REAL_KEYS[a['k']]})"
+    return f"{a['r']}({'A' if a['op'] == 'base' else 'A_' + a['op']}, key={REAL_KEYS[a['k']]})"
 
 
 def do_action(a, A, fns):
-    """Execute one action; returns the output digest ('' for user actions)."""
+    """Execute one action (A: the operator that stands for "base"); returns the output digest ('' for user
+    actions)."""
     if a["t"] == "draw":
         np.random.normal()
         return ""
     if a["t"] == "seed":
         np.random.seed(REAL_SEEDS[a["s"]])
         return ""
+    if a["op"] != "base" and a["r"] != RAW:
+        A = get_ops()["var6_" + a["op"]]
     with warnings.catch_warnings():
         warnings.simplefilter("ignore")
         with np.errstate(all="ignore"):
             try:
-                o = fns[a["r"]](A, REAL_KEYS[a["k"]])
+                if a["r"] == RAW:
+                    from cola.backends import np_fns
+                    shape, dt = RAW_OPS[a["op"]]
+                    o = np_fns.randn(*shape, dtype=np.dtype(dt), key=REAL_KEYS[a["k"]])
+                else:
+                    o = fns[a["r"]](A, REAL_KEYS[a["k"]])
             except Exception as e:  # noqa: BLE001  an exception is an output too (must be reproducible)
                 return "exc:" + type(e).__name__ + ":" + hashlib.sha256(str(e)[:80].encode()).hexdigest()[:8]
     return out_digest(o)
@@ -230,6 +301,41 @@ def _scan(objs):
     return res
 
 
+def randn_state(np_fns):
+    """Does np_fns.randn keep state of its own between calls?  Syntactic / structural scan: module-level mutable
+    containers it refers to, global stores, closures, function attributes, mutable defaults, caching wrappers.
+    Returns the list of reasons (empty = stateless)."""
+    import dis
+    import types
+    fn = np_fns.randn
+    why = []
+    if not isinstance(fn, types.FunctionType):
+        return [f"randn is a {type(fn).__name__}, not a plain function"]
+    if getattr(fn, "__wrapped__", None) is not None:
+        why.append("randn is wrapped by a decorator")
+    if fn.__closure__:
+        why.append("randn is a closure")
+    if fn.__dict__:
+        why.append(f"function attributes {sorted(fn.__dict__)}")
+    for d in list(fn.__defaults__ or ()) + list((fn.__kwdefaults__ or {}).values()):
+        if isinstance(d, (dict, list, set, bytearray, np.ndarray)):
+            why.append("mutable default argument")
+    codes, todo = [], [fn.__code__]
+    while todo:
+        c = todo.pop()
+        codes.append(c)
+        todo += [k for k in c.co_consts if isinstance(k, types.CodeType)]
+    for c in codes:
+        for ins in dis.get_instructions(c):
+            if ins.opname in ("STORE_GLOBAL", "DELETE_GLOBAL"):
+                why.append(f"assigns the module global {ins.argval}")
+        for nm in c.co_names:
+            v = fn.__globals__.get(nm)
+            if isinstance(v, (dict, list, set, bytearray, np.ndarray)):
+                why.append(f"refers to the module-level {type(v).__name__} {nm}")
+    return sorted(set(why))
+
+
 def extract_model():
     import importlib
     import sys
@@ -249,6 +355,7 @@ def extract_model():
     de = mod("cola.linalg.trace.diagonal_estimation")
     src = inspect.getsource(np_fns.randn)
     restores = "get_state" in src and "set_state" in src
+    extract_model.randn_state = randn_state(np_fns)
     slq_fwd = getattr(slq.slq_fwd, "__wrapped__", None)
     slq_objs = [slq] if slq_fwd is None else [slq_fwd, slq.stochastic_lanczos_quad]
     table = {
@@ -266,23 +373,24 @@ def extract_model():
     for r, objs in table.items():
         d = _scan(objs)
         disc[r] = d if d != "none" else "keyed"
+    disc[RAW] = "keyed"
     extra = {"AdaNysPrecond": _scan([pre.AdaNysPrecond]), "select_rank_adaptively": _scan([pre.select_rank_adaptively])}
     return disc, restores, extra
 
 
-def render_model(disc, restores, max_len, sample_mod=1, sample_res=0):
+def render_model(disc, restores, stateless, mode_list):
     return f"""---- MODULE RngModel ----
 \\* generated by harness/props/c17.py from the current source tree
 EXTENDS Integers, Sequences
-RM_Routines == {tla.to_tla(ROUTINES)}
-RM_Keys == {tla.to_tla(KEYS)}
+RM_Routines == {tla.to_tla(ROUTINES_ALL)}
+RM_Ops == {tla.to_tla(OPS_ALL)}
+RM_Keys == {tla.to_tla(KEYS_ALL)}
 RM_Seeds == {tla.to_tla(SEEDS)}
 RM_Disc == {tla.to_tla(disc)}
 RM_RandnRestores == {tla.to_tla(bool(restores))}
+RM_RandnStateless == {tla.to_tla(bool(stateless))}
 RM_Acts == {tla.to_tla(actions())}
-RM_MaxLen == {max_len}
-RM_SampleMod == {sample_mod}
-RM_SampleRes == {sample_res}
+RM_Modes == {tla.to_tla(mode_list)}
 ====
 """
 
@@ -358,11 +466,107 @@ def execute_tree(opn, seqs, split=2):
     return nodes
 
 
-def tree_to_records(trees):
-    """trees: [(op name, {path: (g0,g1,o)})] -> (records in BFS order with contiguous children, index->(op, path))."""
+def _fork_map(fn, tasks, workers=16):
+    """fn(task) for every task, each in a FRESHLY FORKED child of this process (which has imported cola and built the
+    operators, but never executes a randomised routine itself): nothing a task leaves behind can reach another."""
+    import multiprocessing as mp
+    if not tasks:
+        return []
+    with mp.get_context("fork").Pool(processes=min(workers, len(tasks)), maxtasksperchild=1) as pool:
+        return pool.map(fn, tasks, chunksize=1)
+
+
+def _run_chain(segments):
+    """One long history: the segments (tuples of action indices) one after the other, linearly, no state restored.
+    Returns [(action index, g0, g1, o)]."""
+    fns, acts = _run_chain.fns, _run_chain.acts
+    np.random.seed(BOOT_SEED)
+    out = []
+    for seg in segments:
+        for ai in seg:
+            g0 = g_digest()
+            o = do_action(acts[ai - 1], None, fns)
+            out.append((ai, g0, g_digest(), o))
+    return out
+
+
+def execute_chains(segments, per_chain):
+    """Variant-mode behaviours -> chains of `per_chain` segments, each chain in a fresh process.  Returns
+    [(name, {path: (g0, g1, o)}, [(segment index, position)] per event)]."""
+    get_ops()
+    _run_chain.fns = routine_fns()
+    _run_chain.acts = actions()
+    chunks = [segments[i:i + per_chain] for i in range(0, len(segments), per_chain)]
+    res = _fork_map(_run_chain, chunks)
+    out = []
+    for ci, (chunk, evs) in enumerate(zip(chunks, res)):
+        nodes, path = {}, ()
+        for ai, g0, g1, o in evs:
+            path = path + (ai, )
+            nodes[path] = (g0, g1, o)
+        out.append((f"chain{ci}", nodes))
+    return out, chunks
+
+
+def _replay_history(task):
+    """(base operator name or None, [actions]) executed linearly in this process -> [(g0, g1, o)]."""
+    opn, seq = task
+    A = get_ops()[opn] if opn else None
+    np.random.seed(BOOT_SEED)
+    out = []
+    for a in seq:
+        g0 = g_digest()
+        o = do_action(a, A, _run_chain.fns)
+        out.append((g0, g_digest(), o))
+    return out
+
+
+def minimise_history(seq, budget=80):
+    """Greedy shrinking of a history in which two calls of one (routine, operator, key) disagree; every candidate
+    is executed in a fresh process.  Returns the (possibly unchanged) list of actions."""
     acts = actions()
-    ridx = {r: i + 1 for i, r in enumerate(ROUTINES)}
+    idx = [acts.index(a) + 1 for a in seq]
+    get_ops()
+    _run_chain.fns = routine_fns()
+    _run_chain.acts = acts
+
+    def bad(ix):
+        seen = {}
+        for ai, _, _, o in _fork_map(_run_chain, [[tuple(ix)]])[0]:
+            a = acts[ai - 1]
+            if a["t"] == "call" and seen.setdefault((a["r"], a["op"], a["k"]), o) != o:
+                return True
+        return False
+
+    if not bad(idx):
+        return seq
+    i = 0
+    while i < len(idx) and budget > 0:
+        cand = idx[:i] + idx[i + 1:]
+        budget -= 1
+        if cand and bad(cand):
+            idx = cand
+        else:
+            i += 1
+    return [acts[i - 1] for i in idx]
+
+
+def canon_of(recs):
+    """The claim validated by Trace_Rng (okf): output of slot 1, 2, ... = that of the first recorded call of the slot."""
+    canon = {}
+    for r in recs:
+        if r["a"] == "c":
+            canon.setdefault(r["s"], r["o"])
+    return [canon.get(i, 0) for i in range(1, max(canon, default=0) + 1)]
+
+
+def tree_to_records(trees):
+    """trees: [(name, {path: (g0,g1,o)})] -> (records in BFS order with contiguous children, index->(name, path),
+    slot table).  `name` is the operator a base-mode tree ran on (it stands for "base"), anything else for a chain.
+    Slot s of a call = interned (routine, operator, key)."""
+    acts = actions()
     intern = {}
+    slots = {}
 
     def iid(x):
         if x == "":
@@ -394,24 +598,26 @@ def tree_to_records(trees):
             g0, g1, o = nodes[p]
             a = acts[p[-1] - 1]
             fc, nc = first_child[p]
+            slot = 0
+            if a["t"] == "call":
+                slot = slots.setdefault((a["r"], op_name(a, opn), a["k"]), len(slots) + 1)
             rec = {"p": pos[p[:-1]] if len(p) > 1 else 0, "fc": fc if nc else 1, "nc": nc,
-                   "a": {"draw": "d", "seed": "s", "call": "c"}[a["t"]],
-                   "r": ridx.get(a.get("r"), 0), "k": a.get("k", 0) if a["t"] == "call" else 0,
+                   "a": {"draw": "d", "seed": "s", "call": "c"}[a["t"]], "s": slot,
                    "g0": iid("g" + g0), "g1": iid("g" + g1), "o": iid("o" + o) if o else 0}
             recs.append(rec)
             where.append((opn, p))
-    return recs, where
+    return recs, where, slots
 
 
-def validate_tree(wd, recs, tag="trace", workers=16):
+def validate_tree(wd, recs, tag="trace", workers=16, canon=None):
     path = os.path.join(wd, f"{tag}.ndjson")
     with open(path, "w") as fh:
         for r in recs:
             fh.write(json.dumps(r, separators=(",", ":")) + "\n")
+        fh.write(json.dumps({"canon": canon_of(recs) if canon is None else canon}, separators=(",", ":")) + "\n")
     os.environ["TRACE_FILE"] = path
     try:
-        res = tla.run_tlc("Trace_Rng", f"SPECIFICATION Spec\nCONSTANTS\n NR = {len(ROUTINES)}\n NK = {len(KEYS)}\n"
-                          "INVARIANT Verdict\n", wd, workers=workers)
+        res = tla.run_tlc("Trace_Rng", "SPECIFICATION Spec\nINVARIANT Verdict\n", wd, workers=workers)
     finally:
         os.environ.pop("TRACE_FILE", None)
     if res.error or res.violated:
@@ -788,6 +994,20 @@ def control_configs(n, tier):
 
 
 # ------------------------------------------------------------------------------------------------
+def _distinct_slots(recs, slots):
+    """Informative (sensitivity of the observation): number of variant slots whose output digest is shared with no
+    other slot of the same routine (different operators / keys do give different outputs)."""
+    name = {sl: key for key, sl in slots.items() if key[1] not in BASE_OPS}
+    by = {}
+    for r in recs:
+        if r["a"] == "c" and r["s"] in name:
+            by.setdefault(r["s"], r["o"])
+    cnt = {}
+    for sl, o in by.items():
+        cnt[(name[sl][0], o)] = cnt.get((name[sl][0], o), 0) + 1
+    return sum(1 for sl, o in by.items() if cnt[(name[sl][0], o)] == 1)
+
+
 def direct_checks(viol, cov):
     """Routines of the anchor files that are outside the 9-routine alphabet."""
     from .. import build  # noqa: F401
@@ -822,6 +1042,69 @@ def direct_checks(viol, cov):
 
 
 # ------------------------------------------------------------------------------------------------
+class _Counts:
+    def __init__(self, d):
+        self.distinct, self.states = d["distinct"], d["states"]
+
+
+def hutch_main(tier, out_path):
+    """Entry point of the Hutchinson phase when it runs in its own process (concurrently with the interleaving part
+    of the parent; the two share nothing).  Writes violations / coverage / counts as JSON."""
+    from .. import build  # noqa: F401
+    viol, cov = [], {}
+    th = time.time()
+    wd = tla.make_build_dir(PROP + "-hutch")
+    try:
+        hres, htres, hsamples, hruns = hutch_part(tier, wd, viol, cov)
+        direct_checks(viol, cov)
+    finally:
+        common.cleanup(wd)
+    cov["hutch_phase_wall_s"] = round(time.time() - th, 2)
+    with open(out_path, "w") as fh:
+        json.dump({"viol": [v.to_json() for v in viol], "cov": cov, "samples": hsamples, "runs": hruns,
+                   "hres": {"distinct": hres.distinct, "states": hres.states},
+                   "htres": {"distinct": htres.distinct, "states": htres.states}}, fh, default=str)
+
+
+def hutch_start(tier):
+    import subprocess
+    import sys
+    import tempfile
+    os.makedirs(os.path.join(common.VERIF, "build"), exist_ok=True)
+    fd, path = tempfile.mkstemp(prefix="C17-hutch-", suffix=".json", dir=os.path.join(common.VERIF, "build"))
+    os.close(fd)
+    env = dict(os.environ)
+    env["PYTHONPATH"] = os.pathsep.join(p for p in sys.path if p)
+    proc = subprocess.Popen([sys.executable, "-B", "-c",
+                             f"from harness.props import c17; c17.hutch_main({tier!r}, {path!r})"],
+                            env=env, cwd=common.VERIF, stdout=subprocess.PIPE, stderr=subprocess.PIPE, text=True)
+    return proc, path
+
+
+def hutch_finish(proc, path, viol, cov):
+    import sys
+    try:
+        out, err = proc.communicate(timeout=7200)
+        if proc.returncode == 2 and "MACHINERY-FAILURE" in err:
+            sys.stderr.write(err)
+            sys.exit(2)
+        if proc.returncode != 0:
+            raise RuntimeError(f"Hutchinson phase failed (exit {proc.returncode}):\n{err[-3000:]}")
+        with open(path) as fh:
+            r = json.load(fh)
+    finally:
+        if proc.poll() is None:
+            proc.kill()
+        try:
+            os.unlink(path)
+        except OSError:
+            pass
+    for v in r["viol"]:
+        viol.append(Violation(v["property"], v["clause"], v["case"], v["attrs"], v["detail"], v["replay"]))
+    cov.update(r["cov"])
+    return _Counts(r["hres"]), _Counts(r["htres"]), r["samples"], r["runs"]
+
+
 def run(tier):
     t0 = time.time()
     from .. import build  # noqa: F401
@@ -834,29 +1117,56 @@ def run(tier):
         phase[name] = round(time.time() - tp, 2)
         tp = time.time()
 
+    hproc = None
     disc, restores, extra_disc = extract_model()
+    stateful = extract_model.randn_state
     acts = actions()
     depth = 4 if tier == "quick" else 5
-    sample_mod = 5 if tier == "quick" else 8
+    mode_list = modes(tier, depth)
+    sample_mod = mode_list[0]["mod"]
+    var_len = mode_list[1]["maxlen"]
     plan = [("psd6_f64_generic", depth), ("psd7_f32_gram", depth - 1)]
     wd = tla.make_build_dir(PROP)
     try:
-        # (1) TLC: all interleavings up to `depth` on the mechanism model; every sample_mod-th longest one is printed,
-        #     which still covers every interleaving of length depth-1 as a prefix
+        hproc = hutch_start(tier)      # (4) Hutchinson: independent of the interleaving part, runs beside it
+        # (1) TLC: all interleavings of every mode up to its bound on the mechanism model; of the longest ones every
+        #     mod-th is printed, which still covers every interleaving one shorter as a prefix
         mcr = tla.run_tlc("MC_Rng", "SPECIFICATION Spec\nINVARIANT DisciplineSound\nINVARIANT FlagsComplete\n"
-                          "INVARIANT Emit\n", wd,
-                          gen_files={"RngModel.tla": render_model(disc, restores, depth, sample_mod,
-                                                                  common.seed() % sample_mod)})
+                          "INVARIANT Emit\nPROPERTY KeyedOutputsAreAFunction\nPROPERTY ModelSeparatesSlots\n", wd,
+                          gen_files={"RngModel.tla": render_model(disc, restores, not stateful, mode_list)})
         if mcr.error or mcr.violated:
             raise tla.TLCError(f"MC_Rng failed: {mcr.error or mcr.violated}\n" + mcr.out[-2000:])
-        lines = mcr.json_lines()
-        nact = len(acts)
-        if len({tuple(ln["h"][:depth - 1]) for ln in lines}) != nact ** (depth - 1):
+        all_lines = mcr.json_lines()
+        lines = [ln for ln in all_lines if ln["m"] == 1]
+        vlines = sorted((ln for ln in all_lines if ln["m"] != 1), key=lambda ln: (ln["h"], ln["m"]))
+        if len({tuple(ln["h"][:depth - 1]) for ln in lines}) != N_BASE_ACTS ** (depth - 1):
             raise tla.TLCError("printed interleavings do not cover all prefixes of length depth-1")
+        for mi, md in enumerate(mode_list[1:], start=2):
+            if len({tuple(ln["h"][:var_len - 1]) for ln in vlines if ln["m"] == mi}) != len(md["acts"]) ** (var_len - 1):
+                raise tla.TLCError(f"printed interleavings of mode {md['name']} do not cover all prefixes of length "
+                                   f"{var_len - 1}")
         mark("tlc_mc_rng")
-        # (2) execution of the interleavings
-        trees = []
+        # (2) execution of the interleavings.  Variant modes first (the chains fork from this process while it is
+        #     still pristine): behaviours of the different routines alternate within a chain
+        by_mode = {}
+        for ln in vlines:
+            by_mode.setdefault(ln["m"], []).append(ln)
+        segs = []
+        for j in range(max(len(v) for v in by_mode.values())):
+            segs += [by_mode[m][j] for m in sorted(by_mode) if j < len(by_mode[m])]
+        chains, chunks = execute_chains([tuple(ln["h"]) for ln in segs], per_chain=24)
         model_bits = {}
+        si = 0
+        for (cname, _), chunk in zip(chains, chunks):
+            path = ()
+            for _seg in chunk:
+                ln = segs[si]
+                si += 1
+                for j, ai in enumerate(ln["h"]):
+                    path = path + (ai, )
+                    model_bits[(cname, path)] = (ln["vg"][j], ln["vd"][j])
+        mark("execute_variant_chains")
+        trees = []
         for opn, d in plan:
             seqs = sorted({tuple(ln["h"][:d]) for ln in lines})
             nodes = execute_tree(opn, [list(x) for x in seqs])
@@ -866,7 +1176,7 @@ def run(tier):
                 for j in range(1, len(h) + 1):
                     model_bits.setdefault((opn, h[:j]), (ln["vg"][j - 1], ln["vd"][j - 1]))
         mark("execute_interleavings")
-        recs, where = tree_to_records(trees)
+        recs, where, slots = tree_to_records(trees + chains)
         # (3) trace validation
         tres, bad = validate_tree(wd, recs)
         mark("tlc_trace_rng")
@@ -877,35 +1187,62 @@ def run(tier):
             v = bad.get(i)
             okg = True if v is None else v["okg"]
             okd = True if v is None else v["okd"]
+            okf = True if v is None else v["okf"]
             if v is not None and (not v["cont"] or not v["sane"]):
                 common.machinery_failure(PROP, f"recording is not continuous / not sensitive at node {i}: {v} "
                                          f"{[act_str(acts[x - 1]) for x in path]}")
             mg, md = model_bits[(opn, path)]
-            if a["t"] == "call" and (bool(mg), bool(md)) != (okg, okd):
+            if a["t"] == "call" and (bool(mg), bool(md)) != (okg, okd and okf):
                 drift[a["r"]] = drift.get(a["r"], 0) + 1
-            for clause, ok in (("global_state", okg), ("determinism", okd)):
-                if not ok:
-                    key = (clause, a["r"], a["k"], opn)
-                    ent = agg.setdefault(key, [0, path])
-                    ent[0] += 1
-                    if len(path) < len(ent[1]):
-                        ent[1] = path
-        for (clause, r, k, opn), (cnt, path) in sorted(agg.items()):
+            # okd: differs from an earlier call of the same history; okf only: from a call of another recorded history
+            found = []
+            if not okg:
+                found.append(("global_state", "call"))
+            if not okd:
+                found.append(("determinism", "history"))
+            elif not okf:
+                found.append(("determinism", "histories"))
+            for clause, scope in found:
+                key = (clause, a["r"], a["k"], op_name(a, opn))
+                ent = agg.setdefault(key, [0, path, opn, scope, i])
+                ent[0] += 1
+                rank_new = (scope == "histories", len(path))
+                rank_old = (ent[3] == "histories", len(ent[1]))
+                if rank_new < rank_old:
+                    ent[1:] = [path, opn, scope, i]
+        n_min = 0
+        for (clause, r, k, opl), (cnt, path, opn, scope, node) in sorted(agg.items()):
             seq = [acts[x - 1] for x in path]
+            base = opn if opn in BASE_OPS else None
+            rp = {"kind": "interleaving", "op": base, "seq": seq}
+            note = ""
+            if clause == "determinism" and scope == "history" and base is None and n_min < 4:
+                n_min += 1          # a self-contained history: shrink it (every candidate runs in a fresh process)
+                seq = minimise_history(seq)
+                rp["seq"] = seq
+                note = " (minimised)"
+            elif clause == "determinism" and scope == "histories":
+                cn = next(j for j, x in enumerate(recs, start=1) if x["a"] == "c" and x["s"] == recs[node - 1]["s"])
+                rp["canon_op"] = where[cn - 1][0] if where[cn - 1][0] in BASE_OPS else None
+                rp["canon"] = [acts[x - 1] for x in where[cn - 1][1]]
+                note = f" (differs from the call at the end of the recorded history of {len(rp['canon'])} action(s))"
             viol.append(Violation(
-                PROP, clause, f"{r} key={REAL_KEYS[k]} on {opn}",
-                {"routine": r, "key": REAL_KEYS[k], "op": opn, "discipline": disc.get(r)},
-                f"{cnt} recorded event(s) rejected by Trace_Rng; shortest: {' ; '.join(act_str(a) for a in seq)}",
-                replay={"kind": "interleaving", "op": opn, "seq": seq}))
-        # negative controls on a small tree
+                PROP, clause, f"{r} key={REAL_KEYS[k]} on {opl}",
+                {"routine": r, "key": REAL_KEYS[k], "op": opl, "discipline": disc.get(r),
+                 "scope": scope, "mode": "base" if base else "variant"},
+                f"{cnt} recorded event(s) rejected by Trace_Rng; shortest{note}: {' ; '.join(act_str(a) for a in seq)}",
+                replay=rp))
+        # negative controls on a small tree, plus a hand-made forest: different operators / keys with different
+        # digests (must be accepted), a second history disagreeing with the first (okf), a repeated call disagreeing
+        # with its own history (okd)
         small = [(opn, {p: v for p, v in nodes.items() if len(p) <= 2}) for opn, nodes in trees[:1]]
-        srecs, swhere = tree_to_records(small)
+        srecs, swhere, sslots = tree_to_records(small)
         neg_rejected = 0
         forest, expect = [], []
         for field in ("g1", "o"):
-            cand = [i for i, r in enumerate(srecs) if r["a"] == "c" and r["p"] != 0
-                    and srecs[r["p"] - 1]["a"] == "c" and srecs[r["p"] - 1]["r"] == r["r"] and srecs[r["p"] - 1]["k"] == r["k"]
-                    and ROUTINES[r["r"] - 1] == "hutch_diag"]
+            hd = {sl for (rt, _, _), sl in sslots.items() if rt == "hutch_diag"}
+            cand = [i for i, r in enumerate(srecs) if r["a"] == "c" and r["p"] != 0 and r["s"] in hd
+                    and srecs[r["p"] - 1]["s"] == r["s"]]
             i = cand[0]
             mut = [dict(r) for r in srecs]
             mut[i][field] = 999999
@@ -919,21 +1256,42 @@ def run(tier):
                 r["fc"] += off
                 forest.append(r)
             expect.append((off + i + 1, "okg" if field == "g1" else "okd"))
+        gb, off, ns = forest[0]["g0"], len(forest), len(sslots)
+
+        def hand(p, fc, nc, slot, o):
+            return {"p": p + off if p else 0, "fc": fc + off if nc else 1, "nc": nc, "a": "c", "s": ns + slot,
+                    "g0": gb, "g1": gb, "o": o}
+
+        # slots: 1 = (r, float64 operator, key 1), 2 = (r, float32 operator, key 1), 3 = (r, float64 operator, key 2)
+        forest += [hand(0, 2, 1, 1, 800011), hand(1, 3, 1, 2, 800012),      # other operator: other output, accepted
+                   hand(2, 4, 1, 3, 800013), hand(3, 0, 0, 1, 800011),      # other key; repeat of the first call
+                   hand(0, 0, 0, 1, 800099),                                # a second history disagrees with the first
+                   hand(0, 7, 1, 2, 800012), hand(6, 0, 0, 2, 800098)]      # a repeat disagrees with its own history
+        expect += [(off + 5, "okf"), (off + 7, "okd")]
+        must_accept = [off + 1, off + 2, off + 3, off + 4, off + 6]
         _, nb = validate_tree(wd, forest, tag="neg", workers=1)
         for node, flag in expect:
             v = nb.get(node)
             if v is not None and not v[flag]:
                 neg_rejected += 1
-        if neg_rejected != 2:
-            common.machinery_failure(PROP, "a corrupted digest was accepted by Trace_Rng")
+        if neg_rejected != 4 or (nb.get(off + 5) or {}).get("okd") is not True:
+            common.machinery_failure(PROP, f"a corrupted digest was accepted by Trace_Rng ({neg_rejected} of 4 rejected)")
+        if any(n in nb for n in must_accept):
+            common.machinery_failure(PROP, "Trace_Rng forces calls on different operators / with different keys to agree: "
+                                     f"{[nb[n] for n in must_accept if n in nb]}")
         mark("triage_and_negative_controls")
-        # (4) Hutchinson
-        hres, htres, hsamples, hruns = hutch_part(tier, wd, viol, cov)
-        direct_checks(viol, cov)
-        mark("hutchinson")
+        # (4) Hutchinson (started at the beginning, in its own process)
+        hres, htres, hsamples, hruns = hutch_finish(*hproc, viol, cov)
+        hproc = None
+        mark("hutchinson_wait")
     finally:
         common.cleanup(wd)
-    n_inter = len(lines)
+        if hproc is not None and hproc[0].poll() is None:
+            hproc[0].kill()
+    n_inter = len(all_lines)
+    if stateful:
+        extra.append("MODEL-FINDING: np_fns.randn keeps state between calls (" + "; ".join(stateful) + "): the model lets "
+                     "every draw depend on the keyed draw made before it")
     leaf_paths = [p for opn, nodes in trees for p in nodes if len(p) == dict(plan)[opn]]
     for r, d in sorted(disc.items()):
         if d != "keyed":
@@ -957,19 +1315,31 @@ def run(tier):
     cov.update({
         "states": mcr.distinct + tres.distinct + hres.distinct + htres.distinct,
         "transitions": mcr.states + tres.states + hres.states + htres.states,
-        "traces_validated_against_impl": len(leaf_paths) + hruns,
+        "traces_validated_against_impl": len(leaf_paths) + len(segs) + hruns,
         "evaluations": len(recs),
         "distinct_nontrivial": len({(opn, tuple(sorted(set(p)))) for opn, nodes in trees for p in nodes
                                     if sum(1 for x in p if acts[x - 1]["t"] == "call") >= 2
                                     and any(acts[x - 1]["t"] != "call" for x in p)}),
-        "rule": "one trace = one interleaving (root-to-leaf path of the recorded tree) or one recorded Hutchinson run; "
+        "rule": "one trace = one interleaving (root-to-leaf path of a recorded base tree, or one variant-mode behaviour "
+                "inside a chain) or one recorded Hutchinson run; "
                 "non-trivial = distinct action sets containing >= 2 calls and >= 1 user action on the generator",
         "samples": [" ; ".join(act_str(acts[x - 1]) for x in p) for p in leaf_paths[:: max(1, len(leaf_paths) // 4)][:4]]
-        + hsamples,
+        + [" ; ".join(act_str(acts[x - 1]) for x in ln["h"]) for ln in segs[:: max(1, len(segs) // 3)][:3]] + hsamples,
         "exhaustive": True,
         "interleaving_depth_model_checked": depth, "interleaving_depth_replayed": dict(plan),
-        "longest_interleavings_replayed_1_in": sample_mod, "interleavings_model_checked": sum(len(acts) ** j for j in range(1, depth + 1)),
-        "interleavings_from_tlc": n_inter, "alphabet": len(acts),
+        "longest_interleavings_replayed_1_in": sample_mod,
+        "interleavings_model_checked": sum(len(md["acts"]) ** j for md in mode_list for j in range(1, md["maxlen"] + 1)),
+        "interleavings_from_tlc": n_inter, "alphabet": N_BASE_ACTS,
+        "variant_modes": len(mode_list) - 1, "variant_alphabet_per_mode": len(mode_list[1]["acts"]),
+        "variant_operator_dtypes": [VAR_DTYPES[v] for v in VAR_OPS], "variant_interleaving_depth": var_len,
+        "variant_interleavings_model_checked": sum(len(md["acts"]) ** j for md in mode_list[1:]
+                                                   for j in range(1, md["maxlen"] + 1)),
+        "variant_interleavings_replayed": len(segs), "variant_longest_replayed_1_in": mode_list[1]["mod"],
+        "variant_chains_in_fresh_processes": len(chains),
+        "variant_events_recorded": sum(len(n) for _, n in chains),
+        "variant_slots_observed": sum(1 for (_, o, _) in slots if o not in BASE_OPS),
+        "variant_slots_with_pairwise_distinct_outputs": _distinct_slots(recs, slots),
+        "randn_state_scan": stateful or "stateless",
         "recorded_events": len(recs), "events_rejected": len(bad),
         "calls_whose_output_is_an_exception": sum(1 for _, nodes in trees for (_, _, o) in nodes.values() if o.startswith("exc:")),
         "negative_controls_rejected": neg_rejected + cov.get("hutch_negative_controls_rejected", 0),
@@ -977,7 +1347,8 @@ def run(tier):
         "discipline_table": disc, "discipline_other": extra_disc, "randn_restores_global_state": restores,
         "routines_whose_output_ignores_the_key": keyless,
         "model_vs_code_call_verdict_disagreements": sum(drift.values()),
-        "checker_cmd": "tlc MC_Rng.tla (Rng.tla + generated RngModel.tla); tlc Trace_Rng.tla; tlc HutchControl.tla; "
+        "checker_cmd": "tlc MC_Rng.tla (Rng.tla + generated RngModel.tla; PROPERTY KeyedOutputsAreAFunction); "
+                       "tlc Trace_Rng.tla; tlc HutchControl.tla; "
                        "tlc Trace_Hutch.tla",
     })
     return common.finish(PROP, tier, t0, cov, viol, ASSUMPTIONS, extra_print=extra)
@@ -990,10 +1361,22 @@ def replay(path):
     r = v.get("replay") or {}
     bad = False
     if r.get("kind") == "interleaving":
-        A = get_ops()[r["op"]]
         fns = routine_fns()
+        acts = actions()
+        ref = {}
+        if r.get("canon"):
+            # the other recorded history, in a fresh process: its outputs are the reference
+            get_ops()
+            _run_chain.fns, _run_chain.acts = fns, acts
+            evs = _fork_map(_replay_history, [(r.get("canon_op"), r["canon"])])[0]
+            for a, (_, _, o) in zip(r["canon"], evs):
+                if a["t"] == "call":
+                    ref[(a["r"], a["op"], a["k"])] = o
+            print(f"reference history ({len(r['canon'])} action(s), fresh process): "
+                  + " ; ".join(act_str(a) for a in r["canon"][-4:]))
+        A = get_ops()[r["op"]] if r.get("op") else None
         np.random.seed(BOOT_SEED)
-        seen = {}
+        seen = dict(ref)
         for a in r["seq"]:
             g0 = g_digest()
             o = do_action(a, A, fns)
@@ -1003,9 +1386,9 @@ def replay(path):
                 if g0 != g1:
                     line += "   <-- global state changed"
                     bad = True
-                k = (a["r"], a["k"])
+                k = (a["r"], a.get("op", "base"), a["k"])
                 if k in seen and seen[k] != o:
-                    line += "   <-- differs from first output"
+                    line += "   <-- differs from first output" + (" (reference history)" if k in ref else "")
                     bad = True
                 seen.setdefault(k, o)
             print(line)
